@@ -318,7 +318,7 @@ func report(ctx *Ctx, root, prop, tier string, seed int, known *knownFile, start
 	}
 	var obs []*Obligation
 	for _, o := range ctx.obs {
-		if inProp[o.Rule] {
+		if inProp[o.Rule] && pd.inScope(o.Rule, o.Key) {
 			obs = append(obs, o)
 		}
 	}
